@@ -341,4 +341,190 @@ theorem range_prefix_in_order (bs : List Nat) :
 
 example : (rangeRun [.start, .block 1, .block 2, .batchDone]).cbs = [1, 2] := by decide
 
+/-! ### two calls on one connection (busy lock) -/
+
+/-- what is preserved by every step of the two-call system: the range batch has consumed a
+    prefix of its answer in callback mode; the single-block call runs only after the lock is
+    free, on exactly the rest of the stream, as the single-call automaton would -/
+def TInv (want : Nat) (ev1 ev2 : List Ev) (t : TSt) : Prop :=
+  ∃ pre left, ev1 = pre ++ left ∧ t.r = pre.foldl rstep RSt.init ∧
+    t.lockR = (!(t.r.ps == .idle) && !t.r.dead) ∧
+    match t.g with
+    | .active s => t.rem1 = [] ∧ t.lockR = false ∧
+        ∃ d2, left ++ ev2 = d2 ++ t.rem2 ∧ s = d2.foldl (step want) (if t.r.dead then deadSt else St.init)
+    | _ => t.rem1 = left ∧ t.rem2 = ev2
+
+theorem tinv_init (want : Nat) (ev1 ev2 : List Ev) : TInv want ev1 ev2 (TSt.init ev1 ev2) :=
+  ⟨[], ev1, rfl, rfl, by simp [TSt.init, RSt.init], by simp [TSt.init]⟩
+
+theorem tinv_step (want : Nat) (ev1 ev2 : List Ev) (t t' : TSt) (a : TAct)
+    (h : TInv want ev1 ev2 t) (hs : tstep want t a = some t') : TInv want ev1 ev2 t' := by
+  obtain ⟨pre, left, he, hr, hl, hg⟩ := h
+  cases a with
+  | gBegin =>
+    simp only [tstep] at hs
+    cases hgp : t.g with
+    | idle =>
+      simp only [hgp, Option.some.injEq] at hs; subst hs
+      rw [hgp] at hg
+      exact ⟨pre, left, he, hr, hl, by simpa using hg⟩
+    | wantLock => simp [hgp] at hs
+    | active s => simp [hgp] at hs
+  | gLock =>
+    simp only [tstep] at hs
+    cases hgp : t.g with
+    | idle => simp [hgp] at hs
+    | active s => simp [hgp] at hs
+    | wantLock =>
+      simp only [hgp] at hs
+      by_cases hlk : t.lockR = true
+      · simp [hlk] at hs
+      · simp only [hlk, Bool.false_eq_true, ↓reduceIte, Option.some.injEq] at hs; subst hs
+        rw [hgp] at hg
+        have hf : t.lockR = false := by simpa using hlk
+        refine ⟨pre, left, he, hr, ?_, ?_⟩
+        · show false = _
+          rw [← hl]; exact hf.symm
+        · exact ⟨rfl, rfl, [], by simp [hg.1, hg.2], rfl⟩
+  | deliverR =>
+    simp only [tstep] at hs
+    by_cases hlk : t.lockR = true
+    · simp only [hlk, ↓reduceIte] at hs
+      cases hgp : t.g with
+      | active s => rw [hgp] at hg; simp [hlk] at hg
+      | idle =>
+        rw [hgp] at hg
+        cases hrem : t.rem1 with
+        | nil => simp [hrem] at hs
+        | cons e rest =>
+          simp only [hrem, Option.some.injEq] at hs; subst hs
+          have hleft : left = e :: rest := by rw [← hg.1, hrem]
+          refine ⟨pre ++ [e], rest, by simp [he, hleft], by simp [List.foldl_append, hr], rfl, ?_⟩
+          simp [hgp, hg.2]
+      | wantLock =>
+        rw [hgp] at hg
+        cases hrem : t.rem1 with
+        | nil => simp [hrem] at hs
+        | cons e rest =>
+          simp only [hrem, Option.some.injEq] at hs; subst hs
+          have hleft : left = e :: rest := by rw [← hg.1, hrem]
+          refine ⟨pre ++ [e], rest, by simp [he, hleft], by simp [List.foldl_append, hr], rfl, ?_⟩
+          simp [hgp, hg.2]
+    · simp [hlk] at hs
+  | deliverG =>
+    simp only [tstep] at hs
+    cases hgp : t.g with
+    | idle => simp [hgp] at hs
+    | wantLock => simp [hgp] at hs
+    | active s =>
+      cases hrem : t.rem2 with
+      | nil => simp [hgp, hrem] at hs
+      | cons e rest =>
+        simp only [hgp, hrem, Option.some.injEq] at hs; subst hs
+        rw [hgp] at hg
+        obtain ⟨h1, h2, d2, h3, h4⟩ := hg
+        refine ⟨pre, left, he, hr, hl, ?_⟩
+        simp only
+        refine ⟨h1, h2, d2 ++ [e], by simp [h3, hrem], by simp [List.foldl_append, h4]⟩
+
+theorem tinv_run (want : Nat) (ev1 ev2 : List Ev) (sched : List TAct) : ∀ t t' : TSt,
+    TInv want ev1 ev2 t → trun want t sched = some t' → TInv want ev1 ev2 t' := by
+  induction sched with
+  | nil => intro t t' h hr; simp [trun] at hr; subst hr; exact h
+  | cons a as ih =>
+    intro t t' h hr
+    unfold trun at hr
+    cases hst : tstep want t a with
+    | none => simp [hst] at hr
+    | some t1 => simp only [hst] at hr; exact ih t1 t' (tinv_step want ev1 ev2 t t1 a h hst) hr
+
+/-- **The mode flag is never flipped under a running batch**: whenever the single-block call
+    is active, the range call has released the busy lock and nothing of its batch is pending. -/
+theorem get_waits_for_batch (want : Nat) (ev1 ev2 : List Ev) (sched : List TAct) (t : TSt) (s : St)
+    (h : trun want (TSt.init ev1 ev2) sched = some t) (hg : t.g = .active s) :
+    t.lockR = false ∧ t.rem1 = [] := by
+  obtain ⟨_, _, _, _, _, hm⟩ := tinv_run want ev1 ev2 sched _ t (tinv_init want ev1 ev2) h
+  rw [hg] at hm
+  exact ⟨hm.2.1, hm.1⟩
+
+/-- a served batch keeps the lock until its BatchDone has been handled -/
+theorem served_lock_aux (bs : List Nat) : ∀ (ret : Option Res) (cbs : List Nat) (d : Nat) (pre left : List Ev),
+    pre ++ left = bs.map Ev.block ++ [.batchDone] →
+    (let r := pre.foldl rstep ⟨.streaming, ret, true, cbs, d, false⟩
+     (!(r.ps == .idle) && !r.dead) = false) → left = [] := by
+  induction bs with
+  | nil =>
+    intro ret cbs d pre left he hl
+    cases pre with
+    | nil => simp at hl
+    | cons e pre' =>
+      simp only [List.map_nil, List.nil_append, List.cons_append, List.cons.injEq] at he
+      have : pre' = [] ∧ left = [] := by
+        cases pre' <;> simp_all
+      exact this.2
+  | cons b bs' ih =>
+    intro ret cbs d pre left he hl
+    cases pre with
+    | nil => simp at hl
+    | cons e pre' =>
+      simp only [List.map_cons, List.cons_append, List.cons.injEq] at he
+      obtain ⟨he1, he2⟩ := he
+      subst he1
+      have hstep : rstep ⟨.streaming, ret, true, cbs, d, false⟩ (.block b) =
+          ⟨.streaming, ret, true, cbs ++ [b], d, false⟩ := by simp [rstep, nextState]
+      simp only [List.foldl_cons, hstep] at hl
+      exact ih ret (cbs ++ [b]) d pre' left he2 hl
+
+/-- **Two calls, any interleaving.** A range request answered by a served batch
+    (`StartBatch, blocks…, BatchDone`) and a single-block request started at any moment from
+    another goroutine: once everything has been delivered, the range callbacks are the served
+    blocks in order, completion was signalled once, and the single-block call ends exactly as
+    it would alone on its own answer (so `get_ok_iff`, `get_never_hangs`, … apply to it). -/
+theorem two_calls_compose (want : Nat) (bs : List Nat) (ev2 : List Ev) (sched : List TAct) (t : TSt) (s : St)
+    (h : trun want (TSt.init (.start :: (bs.map Ev.block ++ [.batchDone])) ev2) sched = some t)
+    (hg : t.g = .active s) (hdone : t.rem2 = []) :
+    t.r.cbs = bs ∧ t.r.done = 1 ∧ t.r.result = none ∧ finish s = getBlock want ev2 := by
+  obtain ⟨pre, left, he, hr, hl, hm⟩ := tinv_run want _ ev2 sched _ t (tinv_init want _ ev2) h
+  rw [hg] at hm
+  obtain ⟨_, hlk, d2, hd2, hs⟩ := hm
+  -- the lock is free, so the whole batch has been handled
+  have hleft : left = [] := by
+    cases pre with
+    | nil =>
+      rw [hr] at hl; simp [RSt.init] at hl; rw [hl] at hlk; simp at hlk
+    | cons e pre' =>
+      simp only [List.cons_append, List.cons.injEq] at he
+      obtain ⟨he1, he2⟩ := he
+      subst he1
+      have h1 : rstep RSt.init .start = ⟨.streaming, none, true, [], 0, false⟩ := by
+        simp [rstep, nextState, RSt.init]
+      rw [hr, List.foldl_cons, h1] at hl
+      rw [hl] at hlk
+      exact served_lock_aux bs none [] 0 pre' left he2.symm hlk
+  subst hleft
+  have hwhole : t.r = ⟨.idle, none, true, bs, 1, false⟩ := by
+    have hpre : pre = .start :: (bs.map Ev.block ++ [.batchDone]) := by simpa using he.symm
+    rw [hr, hpre]
+    have h1 : rstep RSt.init .start = ⟨.streaming, none, true, [], 0, false⟩ := by
+      simp [rstep, nextState, RSt.init]
+    have h2 : rstep ⟨.streaming, none, true, [] ++ bs, 0, false⟩ .batchDone =
+        ⟨.idle, none, true, [] ++ bs, 1, false⟩ := by simp [rstep, nextState]
+    simp only [List.foldl_cons, h1, List.foldl_append, rfold_blocks, List.foldl_nil, h2]
+    simp
+  simp only [List.nil_append, hdone, List.append_nil] at hd2
+  subst hd2
+  rw [hwhole] at hs
+  simp only [Bool.false_eq_true, ↓reduceIte] at hs
+  rw [hwhole, hs]
+  exact ⟨rfl, rfl, rfl, rfl⟩
+
+/-- non-vacuity: GetBlock started in the middle of the batch, a complete schedule -/
+example : (trun 3 (TSt.init [.start, .block 1, .block 2, .batchDone] [.start, .block 3, .batchDone])
+    [.deliverR, .deliverR, .gBegin, .deliverR, .deliverR, .gLock, .deliverG, .deliverG, .deliverG]).map
+      (fun t => (t.r.cbs, t.r.done, match t.g with | .active s => finish s | _ => .hang)) =
+    some ([1, 2], 1, .res (.ok 3)) := by decide
+/-- … and it cannot take the lock while the batch is streaming -/
+example : (trun 3 (TSt.init [.start, .block 1, .batchDone] [.start]) [.deliverR, .gBegin, .gLock]).isNone = true := by
+  decide
+
 end GV.Props.C23
